@@ -4,6 +4,8 @@
 def _nontrivial(op, out):
     # a `gb` line whose stream makes the trigger fire before the end of the stream or retract something:
     # the implementation's output contains a retraction or a forwarded watermark preceded by a record
+    if op.startswith("trq "):
+        return out.startswith("rows ") and not out.startswith("rows 0")
     if not op.startswith("gb "):
         return False
     return (" - " in out) or (" ; W" in out and out.startswith("ok R"))
@@ -16,7 +18,11 @@ PROP = dict(
                        "Octo.C16.aggCount_ok", "Octo.C16.exConf_good", "Octo.C16.simple_is_groupSpec", "Octo.C16.custom_eq_simple",
                        "Octo.C16.validBuffered_of_etByRow", "Octo.C16.C16_event_time_column"],
     nontrivial=_nontrivial,
-    rule="ops: `gb <trigger cfg> … :: <stream>` = the real CustomTriggerGroupBy (real trigger objects materialised from "
+    needs_binary=True,
+    rule="`trq` lines: whole queries through the real binary - tumbling windows over max_diff_watermark, GROUP BY window, key under 11 TRIGGER "
+         "combinations (none, each single trigger, every pair order, triples) in csv / json / batch_table: the printed result must be the batch "
+         "grouping (this is where the NoRetractions flag of physical.Trigger and the sink choice of cmd/root.go are exercised). "
+         "ops: `gb <trigger cfg> … :: <stream>` = the real CustomTriggerGroupBy (real trigger objects materialised from "
          "physical.Trigger, real count/sum aggregates, the EventTimeBuffer in front) over a scripted source. Exhaustive part: "
          "every non-empty subset of {COUNTING n (n=1..4), ON WATERMARK, ON END OF STREAM} (19 configurations) x every valid "
          "changelog with non-decreasing watermarks and no late records over 2 ids x 2 instants x {record, retraction, "
